@@ -84,5 +84,7 @@ def write_sjson(seqs, f):
     """
     seqs.__dict__ = dict(_fmtcomment=COMMENT,
                          **seqs.__dict__)
-    json.dump(seqs, f, cls=_SJSONEncoder)
-    del seqs._fmtcomment
+    try:
+        json.dump(seqs, f, cls=_SJSONEncoder)
+    finally:
+        del seqs._fmtcomment
